@@ -88,6 +88,13 @@ def tblLookup (entries : List TblEntry) (text : List Char) : Option (List Nat) :
 def tblInvLookup (entries : List TblEntry) (code : List Nat) : Option TblEntry :=
   entries.reverse.find? fun e => e.code == code
 
+/-- split a file's text into `readlines()` lines (each with its trailing newline) -/
+def readLines (cs : List Char) : List (List Char) :=
+  let rec go : List Char → List Char → List (List Char) → List (List Char)
+    | [], cur, acc => (if cur.isEmpty then acc else cur.reverse :: acc).reverse
+    | c :: rest, cur, acc => if c == '\n' then go rest [] ((c :: cur).reverse :: acc) else go rest (c :: cur) acc
+  go cs [] []
+
 /-- `Table(path)` from the file's lines; `error .value` also for an empty table (`max()` of nothing) -/
 def mkTable (lines : List (List Char)) : Except Err Tbl :=
   match parseTableLines lines with
